@@ -64,6 +64,8 @@ def gen_plain(rng, ci, j, keys, big_n, target, in_block=False):
         return {'op': 'close'}     # a thread (or process) closing its connection never disturbs another client's block
     if rng.random() < 0.05:
         # a settings update, also in the middle of a block (the documented way to switch culling off for a bulk load)
+        if rng.random() < 0.4:
+            return {'op': 'reset', 'key': 'sqlite_cache_size', 'value': rng.choice((4096, 8192))}      # a pragma tuned at run time
         return {'op': 'reset', 'key': 'cull_limit', 'value': rng.choice((0, 10, 7))}
     if target == 'index':
         name = rng.choice(('setitem', 'setitem', 'getitem', 'delitem', 'ipop', 'setdefault', 'contains', 'len'))
